@@ -1,0 +1,8 @@
+//go:build !verif
+
+package actionlint
+
+// Schedule point of the verification framework (see verif_cache_on.go). Without the build tag
+// "verif" it is an empty function which the compiler removes.
+
+func verifCachePoint(kind, spec string) {}
